@@ -109,6 +109,8 @@ enum Ret {
 }
 
 fn call(f: &Arc<Function>, arg: i64) -> Ret {
+    // the budgets bound one call, not the whole plan of a worker
+    run::default_budget();
     let code = match run::guarded(|| f.clone().create_call(vec![Variable::Int(arg)])) {
         Ok(Ok(code)) => code,
         Ok(Err(e)) => return Ret::Other(format!("create_call rejected: {}", run::error_kind(&e))),
